@@ -147,7 +147,10 @@ package dnsmsg
 //@ func (*Constructor).NewBlockedRespIP
 //@   property C02
 //@   requires CV(c) && req != nil && len(req.Question) >= 1
-//@   modifies nothing
+//@   modifies blockedBy
+//@   ghostset blockedBy[msg] = c
+//@   ensures err == nil ==> blockedBy[msg] == c
+//@   ensures forall m *dns.Msg :: m != msg ==> blockedBy[m] == old(blockedBy[m])
 //@   ensures answered-with-exactly-the-given-addresses: (err == nil) == ((req.Question[0].Qtype == 1 && allV4(ips)) || (req.Question[0].Qtype == 28 && allV6(ips)))
 //@   ensures err == nil ==> msg != nil && fresh(msg) && msg.Rcode == 0 && len(msg.Answer) == len(ips)
 //@   ensures err != nil ==> msg == nil
@@ -161,6 +164,11 @@ package dnsmsg
 //@   ghostset blockedBy[resp] = c
 //@   ensures resp != nil && fresh(resp) && resp.Rcode == rc && len(resp.Answer) == 0 && blockedBy[resp] == c
 //@   ensures forall m *dns.Msg :: m != resp ==> blockedBy[m] == old(blockedBy[m])
+
+// (assumed: a reply to req with the given code)
+//@ func (*Constructor).NewRespRCode
+//@   modifies nothing
+//@   ensures resp != nil && fresh(resp) && resp.Rcode == rc && resp.Id == req.Id
 
 //@ func (*Constructor).NewBlockedNullIPResp
 //@   property C02
